@@ -39,20 +39,19 @@ def arg_name():
 
 def reserve_arg_names(a: ast.AST):
     "Move the counter past every name of the form `arg_N` that `a` already uses"
-    global argument_var_counter, _arg_names_to_skip
-    _arg_names_to_skip = set()
+    global argument_var_counter
     for node in ast.walk(a):
         name = (
             node.id if isinstance(node, ast.Name) else node.arg if isinstance(node, ast.arg) else ""
         )
         if re.fullmatch("arg_[0-9]+", name):
             try:
-                # (the name after it has to be one that can be written, too)
+                # (with room left for the names that come after it to be written, too)
                 after = int(name[4:]) + 1
-                str(after)
+                str(after * 10)
             except ValueError:
-                # Python refuses to convert numbers this long. The counter stays where it is
-                # and steps over the name should it ever get there.
+                # Close to, or past, the longest number Python converts: the counter stays
+                # where it is and steps over the name should it ever get there.
                 _arg_names_to_skip.add(name)
                 continue
             argument_var_counter = max(argument_var_counter, after)
